@@ -46,3 +46,30 @@ Proof.
   intros c Hc Hs. cbn in Hc.
   destruct Hc as [<-|[<-|[<-|[<-|[<-|[<-|[]]]]]]]; first [ left; reflexivity | right; reflexivity | discriminate Hs ].
 Qed.
+
+(* ---- the same text written in any of the three string styles, with proper escapes, is read identically ---- *)
+From PyDBML Require Import PP LexFacts GenGrammar.
+
+(* the scanners of the regenerated string_literal rule *)
+Theorem C13_string_literal_scanners :
+  alternatives g_generic__string_literal =
+  [PQuoted [cSQ] [cSQ] (Some cBSL) false true true;
+   PQuoted [cDQ] [cDQ] (Some cBSL) false true true;
+   PQuoted [cSQ; cSQ; cSQ] [cSQ; cSQ; cSQ] (Some cBSL) true true true].
+Proof. exact string_literal_scanners. Qed.
+Print Assumptions C13_string_literal_scanners.
+
+(* single- and double-quoted style: every single-line text *)
+Theorem C13_single_line_styles :
+  forall q t rest, is_quote q -> no_nl t ->
+    quoted_scan [q] [q] (Some cBSL) false true true (q :: escape q t ++ q :: rest) = Some (t, rest).
+Proof. exact quoted_scan_single. Qed.
+Print Assumptions C13_single_line_styles.
+
+(* triple-quoted style: every text whatsoever, multi-line included *)
+Theorem C13_triple_quoted_style :
+  forall t rest,
+    quoted_scan [cSQ; cSQ; cSQ] [cSQ; cSQ; cSQ] (Some cBSL) true true true
+                (cSQ :: cSQ :: cSQ :: escape cSQ t ++ cSQ :: cSQ :: cSQ :: rest) = Some (t, rest).
+Proof. exact quoted_scan_triple. Qed.
+Print Assumptions C13_triple_quoted_style.
